@@ -74,3 +74,10 @@ template void gsa_use_ops<Zp_field_operators<unsigned int>, long>(const Zp_field
 template void gsa_use_ops<Zp_field_operators<unsigned int>, short>(const Zp_field_operators<unsigned int>&, short);
 template void gsa_use_ops<Multi_field_operators_with_small_characteristics, int>(const Multi_field_operators_with_small_characteristics&, int);
 template void gsa_use_ops<Multi_field_operators_with_small_characteristics, long>(const Multi_field_operators_with_small_characteristics&, long);
+// machine integers wider than the element type: they must reach the reduction untruncated
+template void gsa_use_ops<Zp_field_operators<unsigned int>, unsigned long>(const Zp_field_operators<unsigned int>&, unsigned long);
+template void gsa_use_ops<Zp_field_operators<unsigned short>, unsigned int>(const Zp_field_operators<unsigned short>&, unsigned int);
+template void gsa_use_ops<Multi_field_operators_with_small_characteristics, unsigned long>(const Multi_field_operators_with_small_characteristics&, unsigned long);
+template void gsa_use_value<Shared_Zp_field_element<unsigned int>, unsigned long>(unsigned long);
+template void gsa_use_value<Multi_field_element_with_small_characteristics<2, 23>, unsigned long>(unsigned long);
+template void gsa_use_value<Shared_multi_field_element_with_small_characteristics<unsigned int>, unsigned long>(unsigned long);
